@@ -592,6 +592,20 @@ pub fn run_bigfile(out: &mut Out, rng: &mut Rng, only: Option<&str>, all: bool) 
         if only.map_or(false, |o| o != v.name()) || v.ck_len() != 1 {
             continue;
         }
+        // the limits are about the bytes READ, whatever the path's own metadata says: a 4 KiB file reached
+        // through a symlink (whose lstat size is the length of the target string)
+        {
+            let data = rng.bytes(4096);
+            let real = std::path::PathBuf::from(format!("{}/bl-{}-{}.bin", dir, std::process::id(), v.name()));
+            let link = std::path::PathBuf::from(format!("{}/bl-{}-{}.lnk", dir, std::process::id(), v.name()));
+            let _ = std::fs::remove_file(&link);
+            if std::fs::write(&real, &data).is_ok() && std::os::unix::fs::symlink(&real, &link).is_ok() {
+                let o = v.hash_file(&link);
+                out.emit(Ev::new("file_data").str("v", v.name()).str("why", "symlink").bytes("data", &data).raw("r", &outcome_json(&o)).meas(o.a, &o.p));
+            }
+            let _ = std::fs::remove_file(&link);
+            let _ = std::fs::remove_file(&real);
+        }
         let sizes: Vec<u64> = if all { vec![MAX - 1, MAX, MAX + 1] } else { vec![MAX] };
         for size in sizes {
             let head = rng.bytes(4096);
